@@ -2,6 +2,7 @@ import Dcg.Proofs.Modules
 import Dcg.Proofs.ModulesNorm
 import Dcg.Props.C02
 import Dcg.Proofs.CrossRef
+import Dcg.Proofs.SharedCell
 /-
 C12 — in multi-module output every cross-module reference resolves inside the package.
 Only property theorems live here; helper lemmas are in Dcg/Proofs/Modules.lean.
@@ -692,5 +693,93 @@ theorem rename_keeps_foreign_uses_false : ¬ RenameKeepsForeignUses := by
   cases this
 
 end CrossRef
+
+/-! ### the spelling of a use is kept in the data-type object (Model/SharedCell)
+
+`__change_from_import` stores the spelling module `m` needs for a cross-module use (`Circle`, `shapes.Circle`,
+`shapes_1.Circle`) in `DataType.alias` of the object the use sits in, module after module; the modules are rendered
+after all of them were processed. -/
+section SharedCells
+open Dcg.Model.SharedCell Dcg.Proofs.SharedCell
+
+/-- The full-strength statement — every use reads, when its module is rendered, the spelling its own module computed
+for it — is FALSE of the mechanism as soon as an object is reachable from two modules (`shared_cell_reads_last_writer`,
+`shared_cell_keeps_stale_spelling`). Kept visible. -/
+def render_eq_spelling_full : Prop :=
+  ∀ hist : List Use, coherent hist = true → ∀ u ∈ hist, render hist u = u.sp
+
+/-- Per-module spelling is right when no object is shared between modules: for EVERY history of uses (any number of
+modules, objects, uses, any processing order) in which no object is met in two different modules and the uses of one
+object inside a module get one spelling, every use reads — after ALL modules were processed — exactly the spelling
+its own module's import block gives it. (`unshared` is the invariant the harness checks on the real run, by object
+identity: c12_shared.) -/
+theorem render_eq_spelling_partial (hist : List Use) (hu : unshared hist = true) (hc : coherent hist = true)
+    (u : Use) (hm : u ∈ hist) : render hist u = u.sp :=
+  run_reach hist u.cell u.sp empty (allSp_of hist hu hc u hm) ⟨u, hm, rfl⟩ rfl
+
+/-- non-vacuity: two modules, three objects, qualified and plain spellings -/
+example : unshared [⟨0, 1, none⟩, ⟨0, 2, none⟩, ⟨1, 3, some "s.C".toList⟩, ⟨1, 3, some "s.C".toList⟩] = true ∧
+    coherent [⟨0, 1, none⟩, ⟨0, 2, none⟩, ⟨1, 3, some "s.C".toList⟩, ⟨1, 3, some "s.C".toList⟩] = true := by decide
+
+/-- The same for spellings computed per (module, reference) — what `relative()` + the scoped resolver are: whatever
+function `sp` of (module, reference) gives the spelling and whatever reference `refOf` an object carries, if no object
+is met in two modules then every use (m, c) reads `sp m (refOf c)`. Coherence needs no hypothesis here. -/
+theorem per_module_spelling_read_back (sp : Nat → Nat → Spelling) (refOf : Nat → Nat) (uses : List (Nat × Nat))
+    (hu : unshared (histOf sp refOf uses) = true) (m c : Nat) (hm : (m, c) ∈ uses) :
+    render (histOf sp refOf uses) ⟨m, c, sp m (refOf c)⟩ = sp m (refOf c) := by
+  have hmem : (⟨m, c, sp m (refOf c)⟩ : Use) ∈ histOf sp refOf uses :=
+    List.mem_map.mpr ⟨(m, c), hm, rfl⟩
+  have hall : allSp (histOf sp refOf uses) c (sp m (refOf c)) := by
+    intro v hv hcell
+    obtain ⟨⟨m', c'⟩, hmc, rfl⟩ := List.mem_map.mp hv
+    simp only at hcell
+    subst hcell
+    have h1 := List.all_eq_true.mp (List.all_eq_true.mp hu _ hmem) _ (List.mem_map.mpr ⟨(m', c'), hmc, rfl⟩)
+    simp only [Bool.or_eq_true, bne_iff_ne, ne_eq, beq_iff_eq, not_true_eq_false, false_or] at h1
+    simp only [h1]
+  exact run_reach _ c _ empty hall ⟨_, hmem, rfl⟩ rfl
+
+/-- non-vacuity: module 0 beside the class (plain name), module 1 elsewhere (qualified), objects 1..3 not shared -/
+example : unshared (histOf (fun m _ => if m = 0 then none else some "s.C".toList) (fun _ => 9) [(0, 1), (1, 2), (1, 3)]) = true := by
+  decide
+
+/-- An object met in two modules reads the LAST writer, for every history before it: whatever module `m'` wanted for
+its use sitting in object `c`, once a later use of the same object writes `a` the earlier one reads `a`. -/
+theorem shared_cell_reads_last_writer (hist : List Use) (m m' c : Nat) (s : Spelling) (a : List Char) :
+    render (hist ++ [⟨m, c, some a⟩]) ⟨m', c, s⟩ = some a := by
+  unfold render
+  rw [run_append]
+  simp [run, write]
+
+/-- … so the earlier module's use is misspelt whenever the two modules spell the class differently. -/
+theorem shared_cell_misread (hist : List Use) (m m' c : Nat) (s : Spelling) (a : List Char) (h : s ≠ some a) :
+    render (hist ++ [⟨m, c, some a⟩]) ⟨m', c, s⟩ ≠ s := by
+  rw [shared_cell_reads_last_writer]; exact fun e => h e.symm
+
+/-- non-vacuity of `shared_cell_misread`: `from . import Circle` (plain) in the module processed first -/
+example : (none : Spelling) ≠ some "shapes.Circle".toList := by decide
+
+/-- Witness, refuting `render_eq_spelling_full`: object 7 copied shallowly from the base's member (module 1,
+`from . import shapes` → `shapes.Circle`) into the child (module 0, beside the class: `from . import Circle`, plain).
+The child is processed first and reads `shapes.Circle` — a name its import block does not bind. -/
+theorem shared_cell_written_twice_keeps_last :
+    coherent [⟨0, 7, none⟩, ⟨1, 7, some "shapes.Circle".toList⟩] = true ∧
+    unshared [⟨0, 7, none⟩, ⟨1, 7, some "shapes.Circle".toList⟩] = false ∧
+    render [⟨0, 7, none⟩, ⟨1, 7, some "shapes.Circle".toList⟩] ⟨0, 7, none⟩ = some "shapes.Circle".toList := by
+  decide
+
+/-- The other processing order: the module processed LATER needs no qualification, writes nothing (`alias != name`
+guards the assignment and nothing resets the alias) and reads the stale spelling of the earlier module. -/
+theorem shared_cell_keeps_stale_spelling :
+    coherent [⟨0, 7, some "p.Circle".toList⟩, ⟨1, 7, none⟩] = true ∧
+    render [⟨0, 7, some "p.Circle".toList⟩, ⟨1, 7, none⟩] ⟨1, 7, none⟩ = some "p.Circle".toList := by
+  decide
+
+theorem render_eq_spelling_false : ¬ render_eq_spelling_full := by
+  intro h
+  have := h [⟨0, 7, none⟩, ⟨1, 7, some "shapes.Circle".toList⟩] (by decide) ⟨0, 7, none⟩ (by decide)
+  revert this; decide
+
+end SharedCells
 
 end Dcg.Props.C12
